@@ -23,6 +23,7 @@ package main
 
 import (
 	"fmt"
+	"go/token"
 	"go/types"
 	"os"
 
@@ -395,7 +396,7 @@ func (rl *RefLists) solveStores() {
 					case *ssa.Call:
 						cc := x.Common()
 						if bi, ok := cc.Value.(*ssa.Builtin); ok {
-							if bi.Name() == "copy" && len(cc.Args) == 2 && rl.derives(cc.Args[1], p, x, map[ssa.Value]bool{}) && underStructField(cc.Args[0]) {
+							if bi.Name() == "copy" && len(cc.Args) == 2 && rl.derives(cc.Args[1], p, x, map[ssa.Value]bool{}) && underStructField(cc.Args[0]) && !rl.keyCopyGuarded(x) {
 								why = "copied into a struct field"
 							}
 							return
@@ -453,7 +454,7 @@ func (rl *RefLists) Sinks() []RefListSink {
 			case *ssa.Call:
 				cc := x.Common()
 				if bi, ok := cc.Value.(*ssa.Builtin); ok {
-					if bi.Name() == "copy" && len(cc.Args) == 2 && rl.isList(cc.Args[1]) && underStructField(cc.Args[0]) && !rl.derivesFromAnyParam(cc.Args[1], fn, x) {
+					if bi.Name() == "copy" && len(cc.Args) == 2 && rl.isList(cc.Args[1]) && underStructField(cc.Args[0]) && !rl.derivesFromAnyParam(cc.Args[1], fn, x) && !rl.keyCopyGuarded(x) {
 						add("list copied into a struct field", cc.Args[1])
 					}
 					return
@@ -521,4 +522,80 @@ func (rl *RefLists) calledDynamically(fn *ssa.Function) bool {
 		}
 	}
 	return n == 0 // no caller seen: exported entry point, keep the obligation here
+}
+
+// keyCopyGuarded: copy(key.Args[:], list) into a memoisation key (eval.CacheKey, not a container) where every
+// element of the list was found hashable: on the false edge of slices.ContainsFunc(list, f) with f(o) being
+// !object.Hashable(o). Hashable rejects references (C04.R4), which is what the storage rule is about; the
+// element-by-element form of the same exception is in C06.R4 itself.
+func (rl *RefLists) keyCopyGuarded(cp *ssa.Call) bool {
+	c := rl.c
+	dst := cp.Common().Args[0]
+	isKey := false
+	for v, i := dst, 0; i < 6 && !isKey; i++ {
+		switch x := v.(type) {
+		case *ssa.Slice:
+			v = x.X
+		case *ssa.IndexAddr:
+			v = x.X
+		case *ssa.UnOp:
+			v = x.X
+		case *ssa.FieldAddr:
+			n := namedStruct(x.X.Type())
+			isKey = n != nil && n.Obj().Name() == "CacheKey" && shortPkg(n.Obj().Pkg()) == "eval"
+			v = x.X
+		default:
+			i = 6
+		}
+	}
+	if !isKey {
+		return false
+	}
+	hashable := c.Fn("object", "Hashable")
+	rejectsUnhashable := func(f *ssa.Function) bool {
+		if f == nil || len(f.Params) != 1 || len(f.Blocks) == 0 {
+			return false
+		}
+		n := 0
+		ok := true
+		eachInstr(f, func(in ssa.Instruction) {
+			ret, isRet := in.(*ssa.Return)
+			if !isRet {
+				return
+			}
+			n++
+			u, isNot := retVal(ret, 0).(*ssa.UnOp)
+			if !isNot || u.Op != token.NOT {
+				ok = false
+				return
+			}
+			hc, isCall := u.X.(*ssa.Call)
+			if !isCall || !isCallTo(hc, hashable) || hc.Common().Args[0] != ssa.Value(f.Params[0]) {
+				ok = false
+			}
+		})
+		return ok && n > 0
+	}
+	for _, cc := range controlling(cp.Block()) {
+		cond, edge := cc.Cond, cc.Edge
+		if u, ok := cond.(*ssa.UnOp); ok && u.Op == token.NOT {
+			cond, edge = u.X, 1-edge
+		}
+		call, ok := cond.(*ssa.Call)
+		if !ok || edge != 1 || len(call.Common().Args) != 2 {
+			continue
+		}
+		obj := calleeObj(call)
+		if obj == nil || obj.Pkg() == nil || obj.Pkg().Path() != "slices" || obj.Name() != "ContainsFunc" {
+			continue
+		}
+		if call.Common().Args[0] != cp.Common().Args[1] {
+			continue
+		}
+		f, _ := call.Common().Args[1].(*ssa.Function)
+		if rejectsUnhashable(f) {
+			return true
+		}
+	}
+	return false
 }
